@@ -320,6 +320,48 @@ def test_point_on_face(in_faces, k):
     return g.classify((pof[keep[0]], pof[keep[1]])) == 1
 
 
+BRIDGE = 'Polyface3D.get_outward_faces|test ray through a hole bridge|'
+BRIDGE_REPRO = (
+    "from ladybug_geometry.geometry3d import Point3D, Face3D; "
+    "from ladybug_geometry.geometry3d.polyface import Polyface3D; "
+    "b=[(0,0),(5,0),(5,5),(0,5)]; h=[(1,1),(1,3),(3,3),(3,1)]; "
+    "P=lambda l,z:[Point3D(x,y,z) for x,y in l]; "
+    "bot=Face3D(P(b,0),None,[P(h,0)]); top=Face3D(P(b,.5),None,[P(h,.5)]).flip(); "
+    "# the hole vertex (1,1) lies on the diagonal of the corner (0,0): the merged 2D loop of the "
+    "face bridges along it, and a test ray arriving on that diagonal is counted as a miss")
+
+
+def test_ray_bridge_clearance(in_faces, k, scale):
+    """Exact distance (float) from the test ray of face k to the nearest BRIDGE edge of another
+    face: an edge of the merged vertex loop (Face3D.vertices) that joins the boundary to a hole and
+    is no edge of the boundary or of a hole.  None if no other face has holes."""
+    face = in_faces[k]
+    pof = face._point_on_face(0.01)
+    p = tuple(F(c) for c in tup(pof))
+    v = tuple(F(c) for c in tup(face.normal))
+    q = H.vadd(p, H.vmul(v, F(8 * scale)))
+    best = None
+    for j, f in enumerate(in_faces):
+        if j == k or not f.holes:
+            continue
+        real = set()
+        for lp in [f.boundary] + list(f.holes):
+            pts = [tup(x) for x in lp]
+            for i in range(len(pts)):
+                real.add((pts[i - 1], pts[i]))
+                real.add((pts[i], pts[i - 1]))
+        mv = [tup(x) for x in f.vertices]
+        for i in range(len(mv)):
+            if (mv[i - 1], mv[i]) in real:
+                continue
+            a_ = tuple(F(c) for c in mv[i - 1])
+            b_ = tuple(F(c) for c in mv[i])
+            d = H.seg_seg_dsq3(p, q, a_, b_)
+            if best is None or d < best:
+                best = d
+    return None if best is None else math.sqrt(float(best))
+
+
 def test_ray_clearance(in_faces, k, scale):
     """Exact distance (as a float) from the test ray get_outward_faces uses for face k to
     the nearest edge of any other face."""
@@ -652,23 +694,26 @@ def judge_polyface(case, ex, ans, stats):
             in_faces = outward_test_faces(case, ex)
         except Exception:       # noqa: E722
             in_faces = None
-        clear, onface = [], []
+        clear, onface, bridge = [], [], []
         if in_faces is not None and len(in_faces) == len(faces):
             try:
                 for (k, fi, nb_, nrm) in inward[:6]:
                     onface.append(test_point_on_face(in_faces, k))
                     clear.append(test_ray_clearance(in_faces, k, ex['scale']))
+                    bridge.append(test_ray_bridge_clearance(in_faces, k, ex['scale']))
             except Exception:   # noqa: E722
-                clear, onface = [], []
+                clear, onface, bridge = [], [], []
         # every examined inward face must belong to a known class for the case to count as known
         known = []
-        for c, o in zip(clear, onface):
+        for c, o, bg in zip(clear, onface, bridge):
             known.append(OFFFACE if not o else
-                         (DEGENERATE if c <= 1e-6 * ex['scale'] else None))
+                         (DEGENERATE if c <= 1e-6 * ex['scale'] else
+                          (BRIDGE if bg is not None and bg <= 1e-6 * ex['scale'] else None)))
         degenerate = bool(known) and all(x is not None for x in known)
         klass = None
         if degenerate:
-            klass = OFFFACE if OFFFACE in known else DEGENERATE
+            klass = OFFFACE if OFFFACE in known else \
+                (DEGENERATE if DEGENERATE in known else BRIDGE)
         for idx, (k, fi, nb_, nrm) in enumerate(inward):
             what = '%s: %s %s, face %d/%d (input face %d, %d vertices, given %s): normal %s ' \
                 'points to the interior witness' % (
@@ -680,13 +725,18 @@ def judge_polyface(case, ex, ans, stats):
                 if kk == OFFFACE:
                     what += '; the test point of get_outward_faces (face._point_on_face) is ' \
                         'not on the face'
+                elif kk == BRIDGE:
+                    what += '; the test ray of get_outward_faces meets another face on the ' \
+                        'bridge between its boundary and a hole (%.3g away), where the merged ' \
+                        '2D loop counts the point as outside' % bridge[min(idx, len(bridge) - 1)]
                 else:
                     what += '; the test ray of get_outward_faces passes %.3g from an edge of ' \
                         'another face' % clear[min(idx, len(clear) - 1)]
                 out.append(fail(case, 'face normal points into the solid', what,
                                 sig=kk + 'face normal points into the solid', face=k,
                                 ray_clearance=clear, test_point_on_face=onface,
-                                repro=OFFFACE_REPRO if kk == OFFFACE else PYRAMID_REPRO))
+                                repro=OFFFACE_REPRO if kk == OFFFACE else
+                                BRIDGE_REPRO if kk == BRIDGE else PYRAMID_REPRO))
             else:
                 out.append(fail(case, 'face normal points into the solid', what, face=k,
                                 ray_clearance=clear, test_point_on_face=onface))
